@@ -1624,6 +1624,15 @@ P_EXISTS = z3.Function('path_exists', I, B)         # os.path.exists at entry (t
 P_BASE = z3.Function('path_basename', I, I)         # os.path.basename
 P_ENDS = z3.Function('path_ends_with_npy', I, B)    # p[-4:] == '.npy'
 P_CAT = z3.Function('path_plus_npy', I, I)          # p + '.npy'
+P_FILE = z3.Function('path_file', I, I)            # the file a path denotes NOW (two names of one file: a relative name and its absolute form)
+P_ABS = z3.Function('path_abspath', I, I)           # os.path.abspath
+
+
+def abs_facts(p):
+    """ASSUMED os.path facts (sanity-tested), as explicit instances: abspath(p) names the file p names now, exists / ends with '.npy' / has the
+    base name exactly as p does, and is idempotent"""
+    a = P_ABS(p)
+    return z3.And(P_FILE(a) == P_FILE(p), P_EXISTS(a) == P_EXISTS(p), P_ENDS(a) == P_ENDS(p), P_BASE(a) == P_BASE(p), P_ABS(a) == a)
 
 
 def with_npy(p):
@@ -1730,6 +1739,11 @@ class OsSpec:
         t = _path(p, 'os.path.basename')
         cur().assume(path_facts(t))
         return SPath(P_BASE(t))
+
+    def abspath(self, p):
+        t = _path(p, 'os.path.abspath')
+        cur().assume(abs_facts(t), path_facts(P_ABS(t)))
+        return SPath(P_ABS(t))
 
     def remove(self, p):
         t = _path(p, 'os.remove')
@@ -1930,9 +1944,9 @@ class SetState(Contract):
         bound, array, truncate, existed = ini[0]
         return [('the store is initialised exactly once, as a reopen (no array, no truncation), nothing is removed',
                  z3.BoolVal(array is None and truncate is False and not s.w.removed)),
-                ('the unpickled store is bound to the PICKLED path whenever that file exists', z3.Implies(P_EXISTS(s.fn), bound == s.fn)),
-                ('it is bound to the base name in the working directory only when the pickled path does not exist (and the base name does)',
-                 z3.Implies(z3.Not(P_EXISTS(s.fn)), z3.And(bound == s.base, P_EXISTS(s.base)))),
+                ('the unpickled store is bound to the PICKLED path (a name of that very file) whenever that file exists', z3.Implies(P_EXISTS(s.fn), P_FILE(bound) == P_FILE(s.fn))),
+                ('it is bound to the base name in the working directory (a name of that very file) only when the pickled path does not exist (and the base name does)',
+                 z3.Implies(z3.Not(P_EXISTS(s.fn)), z3.And(P_FILE(bound) == P_FILE(s.base), P_EXISTS(s.base)))),
                 ('the file it is bound to existed: unpickling never creates an (empty) array file', existed)]
 
     def witness(self, vc, model, ob):
@@ -2082,7 +2096,7 @@ class AppendFirst(NpyContract):
 
 class InitArray(Init):
     """NpyArray(filename, array): a new (or emptied) file that holds exactly `array`, flushed"""
-    stubs = ('append', 'flush')
+    stubs = ('append', 'flush', '_init_from_file_header')
 
     def __init__(self):
         self.truncate = True
@@ -2225,7 +2239,7 @@ def replay_refuted(cname, rf):
     """a refuted obligation: look for a failing native input (operation sequence, optionally with a kill point) on the real code"""
     from bounded import c06 as b
     meth = cname.split('[')[0].split('.')[-1]
-    if meth in ('__setstate__', '__init__', 'delete'):
+    if cname.startswith('NpyArray.') and meth in ('__setstate__', '__init__', 'delete'):
         if ('fs', meth) not in _replay_cache:
             _replay_cache[('fs', meth)] = b.search_fs(cname)
         return _replay_cache[('fs', meth)]
@@ -2238,4 +2252,6 @@ def replay_refuted(cname, rf):
 
 def replay_input(inp):
     from bounded import c06 as b
+    if isinstance(inp, dict) and isinstance(inp.get('input'), dict) and 'signature' in inp:
+        inp = inp['input']          # the driver's bounded-failure record wraps the input
     return b.replay_input(inp)
